@@ -93,6 +93,9 @@ pub fn exec<T: Payload>(prop: &str, cfg: &ExecCfg, mut next: impl FnMut(&World<T
             });
             break;
         }
+        if world.diverged && world.stop_clean {
+            break;
+        }
         if world.diverged {
             let cyclic = out.viols.iter().any(|v| v.prop == "C02");
             if (prop == "C01" || prop == "C02") && !world.blind && !blind_used && !cyclic {
